@@ -97,6 +97,12 @@ CHECKS = {
   note="Crash points are those of the recorded syscall sequence; power-loss ordering (fsync/dir sync) is not modelled. Concurrency within one pprof process.",
   technique="TLA+ syscall-level model checked by TLC; strace-recorded syscall trace validated by TLC; strace fault injection and gated schedules on the real handlers",
   design_ref="DESIGN.md 5/C19"),
+ "C20": dict(
+  category="model_checking",
+  text="Shared.tla models the three lock protocols with one process per concurrent caller: encode (Lock, PreEncode writes the scratch fields, Marshal reads them, Unlock - NoTornEncode), temporary files (exclusive create with retry - DistinctNames) and the copy-on-write tool configuration (ReadersSeeConsistentRep); TLC explores every interleaving of 3 processes, checks termination, and must find the violation for each of four broken variants (no mutex, unlock before marshal, check-then-create, in-place update). Binding: a race-detector build of the harnesses runs concurrent mixes generated from those operations - k goroutines x Write/WriteUncompressed/Copy on one profile with the verif gate sleeping between preEncode and marshal, concurrent SourceLine on one ObjFile during reconfiguration, web request mixes and option get/set, parallel fetch - comparing every result with the sequential one and turning every DATA RACE report into a violation; 12 concurrent pprof processes saving a fetched profile into one PPROF_TMPDIR must produce 12 distinct intact files.",
+  note="Go offers no controllable scheduler: implementation-level interleavings are widened at the gate and otherwise sampled; 'no data race' is the race detector's verdict on the executions performed.",
+  technique="TLA+ lock-protocol models checked exhaustively by TLC; race-detector executions of model-derived concurrent mixes with a verif gate; sequential-equivalence comparison",
+  design_ref="DESIGN.md 5/C20"),
 }
 
 NOT_YET = "check not built yet in this session (planned in DESIGN.md section 5)"
